@@ -1,6 +1,7 @@
 package props
 
 import (
+	"strconv"
 	"fmt"
 	"go/ast"
 	"go/constant"
@@ -1444,6 +1445,9 @@ func genSizeSwitches(c *core.Ctx, rule string) {
 					return true
 				})
 				genSubjects[rel+":"+recv+"."+fd.Name.Name] = perSubject
+				if fd.Name.Name == "Init" || fd.Name.Name == "EncodeInto" {
+					genSteps[rel+":"+recv+"."+fd.Name.Name] = stepsBeforeSwitch(fd)
+				}
 				// constants written as a TLV number (the type numbers of the fields): the
 				// first byte and the cursor step agree with the canonical width of the
 				// number — 1 byte only up to 0xfc, 0xfd+2, 0xfe+4, 0xff+8
@@ -1486,12 +1490,96 @@ func genSizeSwitches(c *core.Ctx, rule string) {
 			c.Viol(rule, "init-encode-twin:"+k, "-", "EncodeInto writes "+bad+" (subject|table) that Init did not size with the same table: announced length ≠ written length")
 		}
 	}
+	// the constant steps (type numbers, fixed-width values) that Init adds to the announced
+	// length are the steps by which EncodeInto advances its cursor, in the same order
+	nSt := 0
+	for _, k := range keys {
+		if !strings.HasSuffix(k, ".EncodeInto") {
+			continue
+		}
+		initS, okI := genSteps[strings.TrimSuffix(k, ".EncodeInto")+".Init"]
+		encS := genSteps[k]
+		if !okI {
+			continue
+		}
+		nSt++
+		var subs []string
+		for sj := range encS {
+			subs = append(subs, sj)
+		}
+		sort.Strings(subs)
+		for _, sj := range subs {
+			is, ok := initS[sj]
+			if !ok {
+				continue
+			}
+			for _, kE := range encS[sj] {
+				for _, kI := range is {
+					if kI != kE {
+						c.Viol(rule, "init-encode-type-number-step:"+k+":"+sj, "-", fmt.Sprintf("before sizing the length of %s, Init adds %d to the announced length for the element's type number, EncodeInto advances its cursor by %d after writing it: the encoder announces a different number of bytes than it writes (a type number of 253 or more takes 3 octets)", sj, kI, kE))
+					}
+				}
+			}
+		}
+	}
+	c.Floor(rule, "Init/EncodeInto twins compared step by step", nSt, 60)
+	genSteps = map[string]map[string][]int64{}
 	c.Ok(rule, "generated-size-switches", "-", fmt.Sprintf("%d size switches in %d generated files canonical; %d Init/EncodeInto twins agree", nSw, nFiles, nTw))
 	c.Floor(rule, "Init/EncodeInto twins", nTw, 60)
 	genSubjects = map[string]map[string]int{}
 }
 
 var genSubjects = map[string]map[string]int{}
+var genSteps = map[string]map[string][]int64{}
+
+// stepsBeforeSwitch: for every size switch of a generated sizer / writer, the constant by which
+// the statement directly before it advances the length / the cursor (the width of the
+// element's type number), keyed by the text of the switch's subject.
+func stepsBeforeSwitch(fd *ast.FuncDecl) map[string][]int64 {
+	out := map[string][]int64{}
+	var walk func(list []ast.Stmt)
+	walk = func(list []ast.Stmt) {
+		for i, st := range list {
+			switch x := st.(type) {
+			case *ast.SwitchStmt:
+				if i == 0 {
+					continue
+				}
+				as, ok := list[i-1].(*ast.AssignStmt)
+				if !ok || as.Tok != token.ADD_ASSIGN || len(as.Lhs) != 1 || len(as.Rhs) != 1 {
+					continue
+				}
+				id, ok := as.Lhs[0].(*ast.Ident)
+				bl, ok2 := as.Rhs[0].(*ast.BasicLit)
+				if !ok || !ok2 || (id.Name != "l" && id.Name != "pos") || bl.Kind != token.INT {
+					continue
+				}
+				k, err := strconv.ParseInt(bl.Value, 0, 64)
+				if err != nil {
+					continue
+				}
+				subj, _ := subjectOf(x)
+				if subj != nil {
+					key := types.ExprString(subj)
+					out[key] = append(out[key], k)
+				}
+			case *ast.IfStmt:
+				walk(x.Body.List)
+				if eb, ok := x.Else.(*ast.BlockStmt); ok {
+					walk(eb.List)
+				}
+			case *ast.BlockStmt:
+				walk(x.List)
+			case *ast.ForStmt:
+				walk(x.Body.List)
+			case *ast.RangeStmt:
+				walk(x.Body.List)
+			}
+		}
+	}
+	walk(fd.Body.List)
+	return out
+}
 
 func recvName(fd *ast.FuncDecl) string {
 	if fd.Recv == nil || len(fd.Recv.List) != 1 {
